@@ -337,3 +337,11 @@ Example C18_api_nonvacuous :
      = Ok [(VStr "a", VStr "2"); (VStr "x y", VStr "")]
   /\ (exists ai d, args_falsy ai = true /\ get_parse_input None ai (Some d) = false).
 Proof. vm_compute. repeat split. exists (Some []), []. split; reflexivity. Qed.
+
+(** Tie B: the parse_input rule of the model is the function GENERATED from the current source of
+    pypyr/pipeline.py (Pipeline._get_parse_input) *)
+From PV Require Import Leaves GenProofs.
+Theorem C18_parse_input_is_the_code : forall pa a d,
+  gen_get_parse_input pa a d = Cli.get_parse_input pa a d.
+Proof. exact gen_get_parse_input_is_model. Qed.
+Print Assumptions C18_parse_input_is_the_code.
